@@ -1638,6 +1638,28 @@ def _ev(t, env, memo):
             s = _signed(vs[0], w) - _signed(vs[1], w)
             return max(min(s, (1 << (w - 1)) - 1), -(1 << (w - 1))) & M
         raise Uneval(n)
+    if o == "x86.fpclass":
+        # SDM VFPCLASS: imm bit0 QNaN, 1 +0, 2 -0, 3 +inf, 4 -inf, 5 denormal, 6 negative finite, 7 SNaN
+        v = ev(t[2], env, memo)
+        imm = t[3]
+        eb_ = t[2][1]
+        mb_, xb_ = (23, 8) if eb_ == 32 else (52, 11)
+        sg = v >> (eb_ - 1)
+        e_ = (v >> mb_) & ((1 << xb_) - 1)
+        m_ = v & ((1 << mb_) - 1)
+        emax = (1 << xb_) - 1
+        cats = 0
+        if e_ == emax and m_:
+            cats |= 0x01 if (m_ >> (mb_ - 1)) else 0x80
+        if e_ == 0 and m_ == 0:
+            cats |= 0x04 if sg else 0x02
+        if e_ == emax and m_ == 0:
+            cats |= 0x10 if sg else 0x08
+        if e_ == 0 and m_:
+            cats |= 0x20
+        if sg and not (e_ == emax and m_) and not (e_ == 0 and m_ == 0) and not (e_ == emax and m_ == 0):
+            cats |= 0x40        # negative finite (incl. negative denormals)
+        return int(bool(cats & imm))
     if o == "spec:bit_floor":
         x = ev(t[2], env, memo)
         return (1 << (x.bit_length() - 1)) if x else 0
